@@ -30,6 +30,8 @@ inductive Op where
   | delegate (creator : Addr) (val : ValAddr) (amount : Int)
   | undelegate (creator : Addr) (val : ValAddr) (amount : Int)
   | redelegate (creator : Addr) (src dst : ValAddr) (amount : Int)
+  /-- a governance parameter change of the fishmen list (written to the parameter store directly, not through a message handler) -/
+  | govfishmen (fishmen : List Addr)
   | restart
   | genesis
   | unmodelled (k : String)
@@ -89,6 +91,7 @@ def stepC (e : Env) (s : State) : Op → Res × State
   | .delegate _ _ _ => (.ok, s)
   | .undelegate _ _ _ => (.ok, s)
   | .redelegate _ _ _ _ => (.ok, s)
+  | .govfishmen l => (.ok, { s with params := { s.params with fishmen := l } })
   | .restart => (.ok, s)
   | .genesis => (.ok, exportImport s)
   | .unmodelled _ => (.ok, s)
